@@ -44,3 +44,15 @@
 
 ; @template lemma:TraceOfList:tol_snocl
 (forall ((l {L}) (acc {T}) (v {E})) (! (= (tol_{T} acc (snocl_{L} l v)) (snoc_{T} (tol_{T} acc l) v)) :pattern ((tol_{T} acc (snocl_{L} l v)))))
+
+; @template lemma:List:nth_upd
+(forall ((l {L}) (i Int) (v {E}) (j Int)) (! (=> (and (<= 0 j) (< j (len_{L} l)) (<= 0 i)) (= (nth_{L} (upd_{L} l i v) j) (ite (= j i) v (nth_{L} l j)))) :pattern ((nth_{L} (upd_{L} l i v) j))))
+
+; @template lemma:List:len_upd
+(forall ((l {L}) (i Int) (v {E})) (! (= (len_{L} (upd_{L} l i v)) (len_{L} l)) :pattern ((upd_{L} l i v))))
+
+; @template lemma:List:nth_take
+(forall ((l {L}) (n Int) (j Int)) (! (=> (and (<= 0 j) (< j n) (<= n (len_{L} l))) (= (nth_{L} (take_{L} n l) j) (nth_{L} l j))) :pattern ((nth_{L} (take_{L} n l) j))))
+
+; @template lemma:List:len_take
+(forall ((l {L}) (n Int)) (! (=> (and (<= 0 n) (<= n (len_{L} l))) (= (len_{L} (take_{L} n l)) n)) :pattern ((take_{L} n l))))
